@@ -189,7 +189,7 @@ int expr_div_enumred(expr * value, int * result)
 
         value->type = EXPR_INT;
         value->comb.comb = COMB_TYPE_INT;
-        value->int_value = left_value->int_value / right_value->int_value;
+        value->int_value = (right_value->int_value == -1) ? -left_value->int_value : left_value->int_value / right_value->int_value;
 
         expr_delete(left_value);
         expr_delete(right_value);
@@ -217,7 +217,7 @@ int expr_mod_enumred(expr * value, int * result)
 
         value->type = EXPR_INT;
         value->comb.comb = COMB_TYPE_INT;
-        value->int_value = left_value->int_value % right_value->int_value;
+        value->int_value = (right_value->int_value == -1) ? 0 : left_value->int_value % right_value->int_value;
 
         expr_delete(left_value);
         expr_delete(right_value);
